@@ -2,6 +2,7 @@ package main
 
 import (
 	"fmt"
+	"time"
 	"go/constant"
 	"go/token"
 	"go/types"
@@ -57,6 +58,10 @@ func constToRat(v constant.Value) *big.Rat {
 
 // execBlock runs the instructions of b on st; returns the terminator (nil if the path ends).
 func (e *Engine) execBlock(fr *Frame, b *ssa.BasicBlock, st *State) ssa.Instruction {
+	e.steps++
+	if e.steps%64 == 0 && !e.deadline.IsZero() && time.Now().After(e.deadline) {
+		unsupp("VC generation exceeded its time budget; function left undecided")
+	}
 	for _, in := range b.Instrs {
 		switch x := in.(type) {
 		case *ssa.Jump, *ssa.If, *ssa.Return:
